@@ -1465,6 +1465,36 @@ func runeSetTerm(set string, r value) (*sym.Term, bool) {
 
 func init() {
 	regExt(map[string]externalFn{
+		"unicode.ToLower": func(fr *frame, a []value) value {
+			r, ok := a[0].(sv)
+			if !ok {
+				return fallThrough{}
+			}
+			if r.T.Sort.K != sym.KBV || r.T.Sort.W != 32 {
+				return fallThrough{}
+			}
+			c32 := func(v uint64) *sym.Term { return sym.BVConst(32, v) }
+			if !fr.decide(sym.BVCmp(sym.OBVUle, r.T, c32(0x7F))) {
+				return fallThrough{}
+			}
+			up := sym.And(sym.BVCmp(sym.OBVUle, c32('A'), r.T), sym.BVCmp(sym.OBVUle, r.T, c32('Z')))
+			return mkScalar(sym.Ite(up, sym.BVBin(sym.OBVAdd, r.T, c32(32)), r.T), types.Int32)
+		},
+		"unicode.ToUpper": func(fr *frame, a []value) value {
+			r, ok := a[0].(sv)
+			if !ok {
+				return fallThrough{}
+			}
+			if r.T.Sort.K != sym.KBV || r.T.Sort.W != 32 {
+				return fallThrough{}
+			}
+			c32 := func(v uint64) *sym.Term { return sym.BVConst(32, v) }
+			if !fr.decide(sym.BVCmp(sym.OBVUle, r.T, c32(0x7F))) {
+				return fallThrough{}
+			}
+			lo := sym.And(sym.BVCmp(sym.OBVUle, c32('a'), r.T), sym.BVCmp(sym.OBVUle, r.T, c32('z')))
+			return mkScalar(sym.Ite(lo, sym.BVBin(sym.OBVSub, r.T, c32(32)), r.T), types.Int32)
+		},
 		"strings.ContainsRune": func(fr *frame, a []value) value {
 			if set, ok := a[0].(string); ok {
 				if t, ok := runeSetTerm(set, a[1]); ok {
